@@ -124,7 +124,8 @@ impl SizesInfo {
 
     /// Maximum uncompressed available position
     fn max_uncompressed_pos(&self) -> u64 {
-        (self.compressed_sizes.len() as u64 - 1) * u64::from(UNCOMPRESSED_DATA_SIZE)
+        // An empty stream has no block at all
+        (self.compressed_sizes.len() as u64).saturating_sub(1) * u64::from(UNCOMPRESSED_DATA_SIZE)
             + u64::from(self.last_block_size)
     }
 
@@ -443,6 +444,30 @@ impl<R: Read + Seek> Seek for CompressionLayerReader<'_, R> {
                         let inside_block = pos % u64::from(UNCOMPRESSED_DATA_SIZE);
                         let rounded_pos = pos - inside_block;
 
+                        // Check the state and the position before giving up the
+                        // current state, to stay usable after an error
+                        if matches!(self.state, CompressionLayerReaderState::Empty) {
+                            return Err(Error::WrongReaderState(
+                                "[Compression Layer] On seek, should never happens, unless an error already occurs before"
+                                    .to_string(),
+                            )
+                            .into());
+                        }
+                        if !self.pos_in_stream(rounded_pos) {
+                            if pos != _sizes_info.max_uncompressed_pos() {
+                                return Err(Error::EndOfStream.into());
+                            }
+                            // Exactly at the end of the stream (last block is
+                            // full, or no block at all): nothing to decompress
+                            let old_state = std::mem::replace(
+                                &mut self.state,
+                                CompressionLayerReaderState::Empty,
+                            );
+                            self.state = CompressionLayerReaderState::Ready(old_state.into_inner());
+                            self.underlayer_pos = pos;
+                            return Ok(pos);
+                        }
+
                         // Move the underlayer at the start of the block
                         let old_state =
                             std::mem::replace(&mut self.state, CompressionLayerReaderState::Empty);
@@ -509,15 +534,20 @@ impl<R: Read + Seek> Seek for CompressionLayerReader<'_, R> {
                         let end_pos = self.sizes_info.as_ref().unwrap().max_uncompressed_pos();
                         let distance_from_end = -pos;
                         if distance_from_end >= 0 {
-                            self.seek(SeekFrom::Start(
-                                end_pos
-                                    - u64::try_from(distance_from_end).map_err(|_| {
-                                        io::Error::new(
-                                            io::ErrorKind::InvalidInput,
-                                            "Invalid distance_from_end value",
-                                        )
-                                    })?,
-                            ))
+                            let distance = u64::try_from(distance_from_end).map_err(|_| {
+                                io::Error::new(
+                                    io::ErrorKind::InvalidInput,
+                                    "Invalid distance_from_end value",
+                                )
+                            })?;
+                            self.seek(SeekFrom::Start(end_pos.checked_sub(distance).ok_or_else(
+                                || {
+                                    io::Error::new(
+                                        io::ErrorKind::InvalidInput,
+                                        "Seek before the start of the stream",
+                                    )
+                                },
+                            )?))
                         } else {
                             Err(io::Error::new(
                                 io::ErrorKind::InvalidInput,
